@@ -11,6 +11,8 @@ import (
 	"time"
 	_ "time/tzdata"
 
+	saml2 "github.com/russellhaering/gosaml2"
+
 	"verifsim/core"
 	"verifsim/world"
 )
@@ -249,7 +251,68 @@ func (s *Std) NeighbourNoise(enc string) {
 	}
 	n.Retrieve(enc)
 	n.LogoutResponse(enc)
+	s.decoyTraffic(n, len(enc))
 	s.R.Fault("neighbour_instance_traffic")
+}
+
+// decoyTraffic: the neighbour is also sent somebody else's messages that it has to turn down in the
+// middle of decoding them - a login Response misrouted to the logout endpoints and to the logout
+// pre-decoder, a logout response misrouted to the consumer endpoint, and a login Response in which one
+// assertion's AuthnInstant is not a dateTime. They are complete where the message under test may be lean
+// (subject "mallory@decoy.example", foreign audience, one-time use, proxy restriction): nothing of them may
+// surface anywhere afterwards.
+func (s *Std) decoyTraffic(nb *world.SPNode, salt int) {
+	dt := core.NewGenTape(uint64(salt)*2654435761+17, nil)
+	idp := &world.IdP{Name: "decoy"}
+	now := nb.Now()
+	fed := s.Fed
+	fed.Audience = "https://decoy-audience.example/meta"
+	m := world.GenResponse(dt, idp, fed, now, 3, true)
+	for _, a := range m.Assertions {
+		a.HasSubject, a.NameID = true, strp("mallory@decoy.example")
+		a.OneTimeUse = true
+		a.Proxy = &world.LProxy{Count: 7, Audiences: []string{"https://decoy-proxy.example"}}
+	}
+	whole, err := idp.Issue(m, world.Layout{}, 0)
+	if err != nil {
+		return
+	}
+	bad := m.Assertions[salt%3]
+	if bad.Authn == nil {
+		bad.Authn = &world.LAuthn{SessionIndex: "decoy"}
+	}
+	bad.Authn.AuthnInstant = strp("the day before yesterday")
+	broken, err := idp.Issue(m, world.Layout{}, 0)
+	if err != nil {
+		return
+	}
+	lo := world.GenLogout(dt, idp, fed, now, "LogoutResponse")
+	lox, err := idp.Issue(lo, world.Layout{}, 0)
+	if err != nil {
+		return
+	}
+	lq := world.GenLogout(dt, idp, fed, now, "LogoutRequest")
+	lq.NameID = strp("mallory@decoy.example")
+	lqx, err := idp.Issue(lq, world.Layout{}, 0)
+	if err != nil {
+		return
+	}
+	skip := *nb.Cfg
+	skip.SkipSig, skip.Name = true, "neighbour-unchecked"
+	nodes := []*world.SPNode{nb}
+	if n2, err := world.NewSPNode(&skip, s.R.Sim.Time); err == nil {
+		nodes = append(nodes, n2)
+	}
+	for _, n := range nodes {
+		n.Retrieve(world.Present(broken, false, 6))
+		n.LogoutResponse(world.Present(whole, false, 6))
+		n.LogoutRequest(world.Present(whole, false, 6))
+		world.Guard(func() error { _, e := saml2.DecodeUnverifiedLogoutResponse(world.Present(whole, false, 6)); return e })
+		n.ValidateResponse(world.Present(lox, false, 6))
+		n.LogoutRequest(world.Present(lox, false, 6))
+		n.LogoutResponse(world.Present(lqx, false, 6))
+		world.Guard(func() error { _, e := saml2.DecodeUnverifiedBaseResponse(world.Present(lox, false, 6)); return e })
+	}
 }
 
 // WarmUpThenReconfigure lets the live SP first serve a delivery under a different
